@@ -262,9 +262,10 @@ func (x *c10) sendCovered() {
 	c := x.c
 	senders := x.senders()
 	type res struct {
-		ok  bool
-		why string
-		pos ssa.Instruction
+		ok      bool
+		why     string
+		pos     ssa.Instruction
+		selfCov bool
 	}
 	results := map[string]*res{}
 	var order []string
@@ -344,6 +345,11 @@ func (x *c10) sendCovered() {
 				}
 				if closureBad != "" {
 					fail(closureBad)
+				}
+				if e.Kind == "go" && closureBad == "" && x.selfCovered(target, senders) {
+					// (c) the launched function takes the lock itself and re-validates membership before it sends
+					r.selfCov = true
+					continue
 				}
 				mode, base, lockIdx := x.rwHeldAt(p, i)
 				if mode == "" {
@@ -487,7 +493,9 @@ func (x *c10) sendCovered() {
 	for _, k := range order {
 		r := results[k]
 		parts := strings.SplitN(k, "\x00", 2)
-		if r.ok {
+		if r.ok && r.selfCov {
+			c.R.Held("send-covered", parts[0], parts[1], c.ipos(r.pos), "the launched function takes the PubSub's lock itself and sends only after finding the channel still subscribed, inside that region")
+		} else if r.ok {
 			c.R.Held("send-covered", parts[0], parts[1], c.ipos(r.pos), "send covered by the lock region that read the list")
 		} else {
 			o := c.R.Refuted("send-covered", parts[0], parts[1], c.ipos(r.pos), r.why)
@@ -620,14 +628,87 @@ func (x *c10) signalsDoneAfterSend(fn *ssa.Function, senders map[*ssa.Function]i
 	return true
 }
 
+// knownUnsubscribed: the path has found sub absent from base's list (subIndex(base, sub) == -1 or < 0).
+func (x *c10) knownUnsubscribed(p *Path, base, sub *Term) bool {
+	for _, cd := range p.Conds {
+		r := cd.Rel()
+		if r.B != nil && r.A.Op == "call" && strings.HasSuffix(r.A.Sym, "(*PubSub).subIndex") && len(r.A.Args) == 2 &&
+			r.A.Args[0].Key() == base.Key() && stripConv(r.A.Args[1]).Key() == sub.Key() {
+			if (r.Op == "==" && r.B.IsConst("-1")) || (r.Op == "<" && r.B.IsConst("0")) {
+				return true
+			}
+		}
+	}
+	return false
+}
+
+// selfCovered: form (c) of send-covered. On every path of fn, every send (a call of a sending helper or of
+// SendTimeout) happens while fn itself holds the PubSub's mutex, after a membership test under that lock has found the
+// very channel it sends on in the list (subIndex(o, ch) excluded from being -1). A close needs the write lock, so
+// the channel cannot be closed between that test and the send.
+func (x *c10) selfCovered(fn *ssa.Function, senders map[*ssa.Function]int) bool {
+	if fn == nil {
+		return false
+	}
+	fp := x.c.An.PathsOf(fn)
+	if fp.Unproven != "" || len(fp.Paths) == 0 {
+		return false
+	}
+	sends := 0
+	for _, p := range fp.Paths {
+		for i := range p.Events {
+			e := &p.Events[i]
+			if e.Kind == "send" {
+				return false // a raw send: not through the helper whose timeout handling is checked
+			}
+			if e.Kind != "call" {
+				continue
+			}
+			chIdx, isS := senders[e.SSAFn]
+			if !isS {
+				if strings.HasSuffix(e.Name, "chans.SendTimeout") {
+					chIdx, isS = 0, true
+				} else {
+					continue
+				}
+			}
+			sends++
+			if chIdx >= len(e.Args) {
+				return false
+			}
+			ch := e.Args[chIdx]
+			mode, base, lockIdx := x.rwHeldAt(p, i)
+			if mode == "" || base == nil {
+				return false
+			}
+			validated := false
+			for _, cd := range p.Conds {
+				if cd.NEv <= lockIdx || cd.NEv > i {
+					continue
+				}
+				r := cd.Rel()
+				if r.B != nil && r.A.Op == "call" && strings.HasSuffix(r.A.Sym, "(*PubSub).subIndex") && len(r.A.Args) == 2 &&
+					r.A.Args[0].Key() == base.Key() && stripConv(r.A.Args[1]).Key() == stripConv(ch).Key() && excludesMinusOne(p, r.A, i) {
+					validated = true
+				}
+			}
+			if !validated {
+				return false
+			}
+		}
+	}
+	return sends > 0
+}
+
 // ---- one-mutex-per-channel ----------------------------------------------------
 
 func (x *c10) oneMutex() {
 	c := x.c
 	type res struct {
-		ok  bool
-		why string
-		pos ssa.Instruction
+		ok      bool
+		why     string
+		pos     ssa.Instruction
+		selfCov bool
 	}
 	results := map[string]*res{}
 	var order []string
@@ -1039,11 +1120,22 @@ func (x *c10) timeoutDichotomyOf(fi *FuncInfo, chIdx int, senders map[*ssa.Funct
 	ps := x.paths[fi]
 	ok, why := true, ""
 	ev, sub, timeout, hook := c10Roles(fi, chIdx)
-	if ev == nil || sub == nil || timeout == nil || hook == nil {
+	direct := false
+	for _, p := range ps {
+		for i := range p.Events {
+			e := &p.Events[i]
+			if e.Kind == "send" || (e.Kind == "call" && (strings.HasSuffix(e.Name, "chans.SendTimeout") || strings.HasSuffix(e.Name, "chans.SendContext"))) {
+				direct = true
+			}
+		}
+	}
+	// a helper that sends itself must be given the timeout and the hook; one that delegates may instead read them from
+	// the receiver's configuration fields, as the publishers do
+	if ev == nil || sub == nil || (direct && (timeout == nil || hook == nil)) {
 		c.R.Refuted("timeout-dichotomy", fi.Name, "rows", c.pos(fi), "the sending helper does not receive the event, the channel, the timeout and the hook: it cannot honour the timeout configuration")
 		return
 	}
-	direct := false
+	direct = false
 	for _, p := range ps {
 		for i := range p.Events {
 			e := &p.Events[i]
@@ -1082,10 +1174,15 @@ func (x *c10) timeoutDichotomyOf(fi *FuncInfo, chIdx int, senders map[*ssa.Funct
 					}
 					return nil
 				}
-				same := func(a, b *Term) bool { return a != nil && a.Key() == b.Key() }
-				if !same(arg(gev), ev) || !same(arg(gsub), sub) || !same(arg(gto), timeout) || !same(arg(ghook), hook) {
-					ok, why = false, "does not hand its own event, channel, timeout and hook on to "+g.Name+": the timeout configuration is lost on this route"
+				same := func(a, b *Term) bool { return a != nil && b != nil && a.Key() == b.Key() }
+				recv := paramOf(fi, 0)
+				cfg := func(a *Term, f *types.Var) bool { return a != nil && isFieldLoad(a, f, recv) }
+				if !same(arg(gev), ev) || !same(arg(gsub), sub) || !(same(arg(gto), timeout) || cfg(arg(gto), x.fTime)) || !(same(arg(ghook), hook) || cfg(arg(ghook), x.fHook)) {
+					ok, why = false, "does not hand its own event, channel, timeout and hook (or the receiver's PubTimeoutAfter and OnPubTimeout) on to "+g.Name+": the timeout configuration is lost on this route"
 				}
+			}
+			if n == 0 && p.End == EndReturn && x.knownUnsubscribed(p, paramOf(fi, 0), sub) {
+				continue // the channel was found to be no longer subscribed: nothing is due to it
 			}
 			if n != 1 && p.End != EndPanic {
 				ok, why = false, fmt.Sprintf("a path performs %d sends", n)
